@@ -68,8 +68,8 @@ def childCore (mkKey : Nat → Bytes) (k : XKey) (i : Nat) : Except Bip32Err XKe
       .ok { key := childKey, chainCode := childChainCode, depth := k.depth + 1, parentFP := parentFP,
             childNum := i, version := k.version, isPrivate := false }
 
-/-- the private branch's `childKey = …` as the code has it now (tie B: `Gen.Bip32.childKeyExpr`,
-    expectation in MW.Props.C14). -/
+/-- the private branch's `childKey = …` as the code has it now (its source text is recorded in
+    `Gen.Bip32.childKeyExpr`; behaviourally tied by the short-scalar streams of the harness). -/
 def storeKey (sum : Nat) : Bytes := paddedAppend 32 [] (BE.toBytes sum)   -- paddedAppend(32, nil, ilNum.Bytes())
 
 /-- `(*ExtendedKey).Child` -/
